@@ -357,8 +357,8 @@ class Spectrum:
             raise ValueError('Spectrum objects can only be appended with other '
                              'Spectrum objects')
 
-        if np.any(other.wave <= self.wave):
-            raise ValueError()
+        if np.min(other.wave) <= np.max(self.wave):
+            raise ValueError('appended wavelengths must be greater than the existing ones')
 
         if copy:
             new = self.copy()
